@@ -1,7 +1,7 @@
 (* C18, ACF-CAN listener: the result does not depend on what the receive buffer held before. *)
 From Coq Require Import List NArith ZArith Bool Lia Arith String ZifyBool ZifyN.
 From O1722 Require Import Sym Bits Host FieldModel FieldProofs Spec SpecProofs AccModel FormatChecks Paths CanModel
-  C13Proofs C01Proofs C05Proofs FieldOpsProofs ByteLemmas ExCan C18Proofs C19Proofs.
+  C13Proofs C01Proofs C05Proofs FieldOpsProofs ByteLemmas VssModel ExCan ExListeners C18Proofs C19Proofs.
 From O1722.Generated Require Import Tables.
 Import ListNotations.
 Local Open Scope string_scope.
@@ -37,9 +37,9 @@ Section Stale.
     intros Hb. unfold can_payload_length, getf_ded. cbn [cf_len cf_pad cf_full cf_spec].
     assert (H1 : 16 <= blen (sub (d ++ t) off)) by (rewrite blen_sub; unfold blen in *; rewrite app_length; lia).
     assert (H2 : 16 <= blen (sub d off)) by (rewrite blen_sub; lia).
-    rewrite !(fgetd_exact E spec_Can spec_Can_in) by (first [assumption|reflexivity]). cbn [Paths.bind].
+    rewrite !(fgetd_exact E spec_Can spec_Can_in) by (first [assumption | nok | eqrefl]). cbn [Paths.bind].
     rewrite sub_app_le by lia.
-    rewrite !(ref_get_app spec_Can _ (sub d off) t spec_Can_in) by (first [reflexivity|exact H2]). reflexivity.
+    rewrite !(ref_get_app spec_Can _ (sub d off) t spec_Can_in) by (first [nok | eqrefl | exact H2]). reflexivity.
   Qed.
 
   Lemma lloop_stale fd (d t1 t2:list N) proc msg_length : proc + msg_length <= blen d ->
@@ -49,10 +49,10 @@ Section Stale.
     intros Hfit. induction fuel as [|k IH]; intros mpb fr acc Hle; [reflexivity|].
     cbn [lloop]. destruct (mpb <? msg_length) eqn:E1; cbn [negb]; [|reflexivity]. apply N.ltb_lt in E1.
     destruct (msg_length - mpb <? 16) eqn:E2; [reflexivity|]. apply N.ltb_ge in E2.
-    rewrite !(get_prefix spec_AcfCommon) by (first [vm_compute; tauto | reflexivity | (cbn [sp_hdr_len spec_AcfCommon]; lia)]). cbn [lbind].
+    rewrite !(get_prefix spec_AcfCommon) by (first [inspec | nok | eqrefl | (cbn [sp_hdr_len spec_AcfCommon]; lia)]). cbn [lbind].
     destruct (negb (_ =? 1)); [reflexivity|].
-    rewrite !(get_prefix spec_Can "AVTP_CAN_FIELD_CAN_IDENTIFIER") by (first [vm_compute; tauto | reflexivity | (cbn [sp_hdr_len spec_Can]; lia)]). cbn [lbind].
-    rewrite !(get_prefix spec_Can "AVTP_CAN_FIELD_ACF_MSG_LENGTH") by (first [vm_compute; tauto | reflexivity | (cbn [sp_hdr_len spec_Can]; lia)]). cbn [lbind].
+    rewrite !(get_prefix spec_Can "AVTP_CAN_FIELD_CAN_IDENTIFIER") by (first [inspec | nok | eqrefl | (cbn [sp_hdr_len spec_Can]; lia)]). cbn [lbind].
+    rewrite !(get_prefix spec_Can "AVTP_CAN_FIELD_ACF_MSG_LENGTH") by (first [inspec | nok | eqrefl | (cbn [sp_hdr_len spec_Can]; lia)]). cbn [lbind].
     rewrite !cpl_prefix by lia.
     destruct (can_payload_length LD ST cf_full (sub d (proc + mpb))) as [cpl| |]; cbn [lbind]; [|reflexivity|reflexivity].
     set (ql := ref_get spec_Can "AVTP_CAN_FIELD_ACF_MSG_LENGTH" (sub d (proc + mpb))).
@@ -61,18 +61,18 @@ Section Stale.
     destruct ((acf <? 16) || (msg_length - mpb <? acf) || (acf - 16 <? cpl) || (maxp <? cpl)) eqn:E3; [reflexivity|].
     apply orb_false_iff in E3. destruct E3 as [E3 E3d]. apply orb_false_iff in E3. destruct E3 as [E3 E3c].
     apply orb_false_iff in E3. destruct E3 as [E3a E3b]. apply N.ltb_ge in E3a, E3b, E3c, E3d.
-    rewrite !(get_prefix spec_Can "AVTP_CAN_FIELD_EFF") by (first [vm_compute; tauto | reflexivity | (cbn [sp_hdr_len spec_Can]; lia)]). cbn [lbind].
+    rewrite !(get_prefix spec_Can "AVTP_CAN_FIELD_EFF") by (first [inspec | nok | eqrefl | (cbn [sp_hdr_len spec_Can]; lia)]). cbn [lbind].
     destruct ((_ =? 0) && (0x7FF <? _)); [reflexivity|].
-    rewrite !(get_prefix spec_Can "AVTP_CAN_FIELD_RTR") by (first [vm_compute; tauto | reflexivity | (cbn [sp_hdr_len spec_Can]; lia)]). cbn [lbind].
+    rewrite !(get_prefix spec_Can "AVTP_CAN_FIELD_RTR") by (first [inspec | nok | eqrefl | (cbn [sp_hdr_len spec_Can]; lia)]). cbn [lbind].
     assert (Hb1 : blen (d ++ t1) = blen d + blen t1) by (unfold blen; rewrite app_length; lia).
     assert (Hb2 : blen (d ++ t2) = blen d + blen t2) by (unfold blen; rewrite app_length; lia).
     assert (Hc1 : (cpl <=? maxp) && (proc + mpb + 16 + cpl <=? blen (d ++ t1)) = true) by (apply andb_true_iff; split; apply N.leb_le; lia).
     assert (Hc2 : (cpl <=? maxp) && (proc + mpb + 16 + cpl <=? blen (d ++ t2)) = true) by (apply andb_true_iff; split; apply N.leb_le; lia).
     rewrite !slice_app_le by lia.
     destruct fd.
-    - rewrite !(get_prefix spec_Can "AVTP_CAN_FIELD_BRS") by (first [vm_compute; tauto | reflexivity | (cbn [sp_hdr_len spec_Can]; lia)]). cbn [lbind].
-      rewrite !(get_prefix spec_Can "AVTP_CAN_FIELD_FDF") by (first [vm_compute; tauto | reflexivity | (cbn [sp_hdr_len spec_Can]; lia)]). cbn [lbind].
-      rewrite !(get_prefix spec_Can "AVTP_CAN_FIELD_ESI") by (first [vm_compute; tauto | reflexivity | (cbn [sp_hdr_len spec_Can]; lia)]). cbn [lbind].
+    - rewrite !(get_prefix spec_Can "AVTP_CAN_FIELD_BRS") by (first [inspec | nok | eqrefl | (cbn [sp_hdr_len spec_Can]; lia)]). cbn [lbind].
+      rewrite !(get_prefix spec_Can "AVTP_CAN_FIELD_FDF") by (first [inspec | nok | eqrefl | (cbn [sp_hdr_len spec_Can]; lia)]). cbn [lbind].
+      rewrite !(get_prefix spec_Can "AVTP_CAN_FIELD_ESI") by (first [inspec | nok | eqrefl | (cbn [sp_hdr_len spec_Can]; lia)]). cbn [lbind].
       rewrite Hc1, Hc2. apply IH. lia.
     - rewrite Hc1, Hc2. apply IH. lia.
   Qed.
@@ -89,17 +89,92 @@ Section Stale.
     set (t1 := skipn (List.length d') s1). set (t2 := skipn (List.length d') s2).
     assert (Hudp : (if udp then get LD ST spec_Udp "AVTP_UDP_FIELD_ENCAPSULATION_SEQ_NO" (d' ++ t1) 0 else Ok 0) =
                    (if udp then get LD ST spec_Udp "AVTP_UDP_FIELD_ENCAPSULATION_SEQ_NO" (d' ++ t2) 0 else Ok 0)).
-    { destruct udp; [|reflexivity]. rewrite !(get_prefix spec_Udp) by (first [vm_compute; tauto | reflexivity | (cbn [sp_hdr_len spec_Udp]; unfold proc0 in *; lia)]). reflexivity. }
+    { destruct udp; [|reflexivity]. rewrite !(get_prefix spec_Udp) by (first [inspec | nok | eqrefl | (cbn [sp_hdr_len spec_Udp]; unfold proc0 in *; lia)]). reflexivity. }
     rewrite Hudp. destruct (if udp then get LD ST spec_Udp "AVTP_UDP_FIELD_ENCAPSULATION_SEQ_NO" (d' ++ t2) 0 else Ok 0); cbn [lbind]; [|reflexivity|reflexivity].
-    rewrite !(get_prefix spec_CommonHeader) by (first [vm_compute; tauto | reflexivity | (cbn [sp_hdr_len spec_CommonHeader]; lia)]). cbn [lbind].
+    rewrite !(get_prefix spec_CommonHeader) by (first [inspec | nok | eqrefl | (cbn [sp_hdr_len spec_CommonHeader]; lia)]). cbn [lbind].
     destruct (negb _); [reflexivity|].
     destruct (_ =? 5).
     - destruct (res <? proc0 + 24) eqn:E1; [reflexivity|]. apply N.ltb_ge in E1.
-      rewrite !(get_prefix spec_Tscf) by (first [vm_compute; tauto | reflexivity | (cbn [sp_hdr_len spec_Tscf]; lia)]). cbn [lbind].
+      rewrite !(get_prefix spec_Tscf) by (first [inspec | nok | eqrefl | (cbn [sp_hdr_len spec_Tscf]; lia)]). cbn [lbind].
       destruct (res - (proc0 + 24) <? _) eqn:E2; [reflexivity|]. apply N.ltb_ge in E2.
       apply lloop_stale; lia.
-    - rewrite !(get_prefix spec_Ntscf) by (first [vm_compute; tauto | reflexivity | (cbn [sp_hdr_len spec_Ntscf]; lia)]). cbn [lbind].
+    - rewrite !(get_prefix spec_Ntscf) by (first [inspec | nok | eqrefl | (cbn [sp_hdr_len spec_Ntscf]; lia)]). cbn [lbind].
       destruct (res - (proc0 + 12) <? _) eqn:E2; [reflexivity|]. apply N.ltb_ge in E2.
       apply lloop_stale; lia.
   Qed.
 End Stale.
+
+(* hello-world listener: what it does with a datagram does not depend on what the buffer of main held before *)
+Section Stale2.
+  Variable E : endian.
+  Notation LD := (ldqE E). Notation ST := (stqE E).
+
+  Lemma recv_shape (old d:list N) : List.length old = 1500%nat ->
+    exists d' t, recv_into MAX_PDU_SIZE old d = (d' ++ t, blen d') /\ d' = firstn 1500 d /\ blen (d' ++ t) = 1500 /\ blen d' <= 1500.
+  Proof.
+    intros H. unfold recv_into. change (N.to_nat MAX_PDU_SIZE) with 1500%nat.
+    exists (firstn 1500 d), (skipn (List.length (firstn 1500 d)) old). split; [reflexivity|]. split; [reflexivity|].
+    unfold blen. rewrite app_length, skipn_length, firstn_length. lia.
+  Qed.
+
+  (* the part of the loop body behind the control format header *)
+  Definition hello_tail (pdu:buf) (res proc:N) : lstat * list pevent * buf :=
+    if res <? proc + 8 then (XDropped, [], pdu) else
+    xbind (get LD ST spec_AcfCommon "AVTP_ACF_FIELD_ACF_MSG_TYPE" pdu proc) (fun st => (st, [], pdu)) (fun t =>
+    if negb (t =? 5) then (XDropped, [], pdu) else
+    xbind (get LD ST spec_Gpc "AVTP_GPC_FIELD_GPC_MSG_ID" pdu proc) (fun st => (st, [], pdu)) (fun code =>
+    xbind (get LD ST spec_Gpc "AVTP_GPC_FIELD_ACF_MSG_LENGTH" pdu proc) (fun st => (st, [], pdu)) (fun ql =>
+    let l := ql * 4 in
+    if (l <=? 100) && (8 <=? l) && (proc + l <=? res) then
+      if proc + l <=? blen pdu then (XHandled, [PGpc (until_nul (slice pdu (proc + 8) (N.to_nat (l - 8)))) code], pdu)
+      else (XOverflow l, [], pdu)
+    else (XHandled, [], pdu)))).
+
+  Lemma hello_tail_indep (d t1 t2:list N) proc : blen (d ++ t1) = 1500 -> blen (d ++ t2) = 1500 ->
+    fst (hello_tail (d ++ t1) (blen d) proc) = fst (hello_tail (d ++ t2) (blen d) proc).
+  Proof.
+    intros H1 H2. unfold hello_tail. destruct (blen d <? proc + 8) eqn:E1; [reflexivity|]. apply N.ltb_ge in E1.
+    rewrite !(get_prefix E spec_AcfCommon) by (first [inspec | nok | eqrefl | (cbn [sp_hdr_len spec_AcfCommon]; lia)]). cbn [xbind].
+    destruct (negb _); [reflexivity|].
+    rewrite !(get_prefix E spec_Gpc "AVTP_GPC_FIELD_GPC_MSG_ID") by (first [inspec | nok | eqrefl | (cbn [sp_hdr_len spec_Gpc]; lia)]). cbn [xbind].
+    rewrite !(get_prefix E spec_Gpc "AVTP_GPC_FIELD_ACF_MSG_LENGTH") by (first [inspec | nok | eqrefl | (cbn [sp_hdr_len spec_Gpc]; lia)]). cbn [xbind].
+    match goal with |- context [if ?c then _ else _] => destruct c eqn:E2 end; [|reflexivity].
+    apply andb_true_iff in E2. destruct E2 as [E2 E3]. apply andb_true_iff in E2. destruct E2 as [E2a E2b].
+    apply N.leb_le in E2a, E2b, E3.
+    rewrite H1, H2. destruct (_ <=? 1500); [|reflexivity]. rewrite !slice_app_le by lia. reflexivity.
+  Qed.
+
+  Lemma hello_unfold udp old d : hello_recv LD ST udp old d =
+    cf_prefix LD ST udp (fst (recv_into MAX_PDU_SIZE old d)) (fun st => (st, [], fst (recv_into MAX_PDU_SIZE old d)))
+      (hello_tail (fst (recv_into MAX_PDU_SIZE old d)) (snd (recv_into MAX_PDU_SIZE old d))).
+  Proof. unfold hello_recv. destruct (recv_into MAX_PDU_SIZE old d) as [pdu res]. reflexivity. Qed.
+
+  Theorem hello_stale_independent udp old1 old2 d : List.length old1 = 1500%nat -> List.length old2 = 1500%nat ->
+    fst (hello_recv LD ST udp old1 d) = fst (hello_recv LD ST udp old2 d).
+  Proof.
+    intros H1 H2.
+    destruct (recv_shape old1 d H1) as [d1 [t1 [R1 [D1 [L1 Hres]]]]]. destruct (recv_shape old2 d H2) as [d2 [t2 [R2 [D2 [L2 _]]]]].
+    subst d2. rename d1 into d'. subst d'. set (d' := firstn 1500 d) in *.
+    rewrite !hello_unfold, R1, R2. cbn [fst snd]. set (res := blen d') in *.
+    set (proc0 := if udp then 4 else 0).
+    destruct (N.lt_ge_cases res (proc0 + 4)) as [Hs|Hs].
+    - (* not even the subtype arrived: whatever the stale header says, the packet is too short *)
+      destruct (cf_prefix_ok E udp (d' ++ t1) (fun st => (st, [], d' ++ t1)) (hello_tail (d' ++ t1) res) L1) as [p1 [Hp1 K1]].
+      destruct (cf_prefix_ok E udp (d' ++ t2) (fun st => (st, [], d' ++ t2)) (hello_tail (d' ++ t2) res) L2) as [p2 [Hp2 K2]].
+      rewrite K1, K2. unfold hello_tail.
+      replace (res <? p1 + 8) with true by (symmetry; apply N.ltb_lt; unfold proc0 in Hs; destruct udp; lia).
+      replace (res <? p2 + 8) with true by (symmetry; apply N.ltb_lt; unfold proc0 in Hs; destruct udp; lia).
+      reflexivity.
+    - unfold cf_prefix. fold proc0.
+      assert (Hp0 : proc0 <= 4) by (unfold proc0; destruct udp; lia).
+      assert (Hu : forall t, blen (d' ++ t) = 1500 -> exists x, (if udp then get LD ST spec_Udp "AVTP_UDP_FIELD_ENCAPSULATION_SEQ_NO" (d' ++ t) 0 else Ok 0) = Ok x).
+      { intros t Ht. destruct udp; [|eexists; reflexivity]. rewrite (get_ok E); [eexists; reflexivity|inspec|nok|rewrite Ht; cbn; lia]. }
+      destruct (Hu t1 L1) as [x1 X1]. destruct (Hu t2 L2) as [x2 X2]. rewrite X1, X2. cbn [xbind].
+      rewrite !(get_prefix E spec_CommonHeader) by (first [inspec | nok | eqrefl | (cbn [sp_hdr_len spec_CommonHeader]; fold res; lia)]). cbn [xbind].
+      destruct (_ =? 5).
+      + rewrite !(get_ok E spec_Tscf) by (first [inspec | nok | eqrefl | (rewrite ?L1, ?L2; cbn [sp_hdr_len spec_Tscf]; lia)]). cbn [xbind].
+        apply hello_tail_indep; assumption.
+      + rewrite !(get_ok E spec_Ntscf) by (first [inspec | nok | eqrefl | (rewrite ?L1, ?L2; cbn [sp_hdr_len spec_Ntscf]; lia)]). cbn [xbind].
+        apply hello_tail_indep; assumption.
+  Qed.
+End Stale2.
